@@ -184,7 +184,7 @@ func (c *c08) RunCase(w *core.Worker, idx int, seed uint64, res *core.CaseResult
 				}
 				res.Violate("C08/node-of-winning-case-missing"+feat, "%s: device lacks %s (ruling %s p%d = %s)\n  model: %s", where, k, wv.Owner, wv.Prio, wv.Value, run.m)
 			} else if delete(lostByPresence, k); dv != wv.Value {
-				res.Violate("C08/wrong-value", "%s: device has %s=%s, ruling %s p%d says %s\n  model: %s", where, k, dv, wv.Owner, wv.Prio, wv.Value, run.m)
+				res.Violate("C08/wrong-value"+c08Feature(k, nested), "%s: device has %s=%s, ruling %s p%d says %s\n  model: %s", where, k, dv, wv.Owner, wv.Prio, wv.Value, run.m)
 			}
 		}
 		for k, dv := range D {
